@@ -236,13 +236,13 @@ func genDataCase(r *core.RNG, o dataGenOpts) dataCase {
 	}
 	d.Spec.ADR, d.Spec.ADRACKReq, d.Spec.ACK, d.Spec.Bit4 = r.Bool(), r.Bool(), r.Bool(), r.Bool()
 	if d.Spec.Bit4 {
-		switch r.Intn(3) {
-		case 0:
-			d.FPending = true
-		case 1:
-			d.ClassB = true
-		default:
-			d.FPending, d.ClassB = true, true
+		// bit 4 is ClassB in an uplink and FPending in a downlink: the flag of the frame's direction is set,
+		// the other one (which means nothing in this direction) sometimes along with it
+		both := r.Intn(3) == 2
+		if mt%2 == 0 {
+			d.ClassB, d.FPending = true, both
+		} else {
+			d.FPending, d.ClassB = true, both
 		}
 	}
 	d.Spec.FCnt = r.U32Edge()
